@@ -240,6 +240,9 @@ def configs():
 
 
 def run():
+    import gc
+    gc.collect()
+    gc.freeze()          # forked workers then do not copy the parent heap page by page
     ck = core.Check("C38", "model_checking", META["technique"])
     spellings, cfgs = configs()
     if not spellings:
